@@ -789,124 +789,74 @@ Require Verif.Tie.Nuget.
 Require Verif.Tie.Pypi.
 Require Verif.Tie.Rpm.
 Require Verif.Tie.Semver.
-Definition C07_tie_alpine_compareInt := Verif.Tie.Alpine.tie_alpine_compareInt.
-Print Assumptions C07_tie_alpine_compareInt.
-Definition C07_tie_alpine_Version_String := Verif.Tie.Alpine.tie_alpine_Version_String.
-Print Assumptions C07_tie_alpine_Version_String.
-Definition C07_tie_alpine_compareLetters := Verif.Tie.Alpine.tie_alpine_compareLetters.
-Print Assumptions C07_tie_alpine_compareLetters.
-Definition C07_tie_alpm_string := Verif.Tie.Alpm.tie_alpm_string.
-Print Assumptions C07_tie_alpm_string.
-Definition C07_tie_alpm_compare := Verif.Tie.Alpm.tie_alpm_compare.
-Print Assumptions C07_tie_alpm_compare.
-Definition C07_tie_apache_compareInt := Verif.Tie.Apache.tie_apache_compareInt.
-Print Assumptions C07_tie_apache_compareInt.
-Definition C07_tie_apache_getQualifierPrecedence := Verif.Tie.Apache.tie_apache_getQualifierPrecedence.
-Print Assumptions C07_tie_apache_getQualifierPrecedence.
-Definition C07_tie_apache_compare := Verif.Tie.Apache.tie_apache_compare.
-Print Assumptions C07_tie_apache_compare.
-Definition C07_tie_apache_string := Verif.Tie.Apache.tie_apache_string.
-Print Assumptions C07_tie_apache_string.
-Definition C07_tie_cargo_compareInt := Verif.Tie.Cargo.tie_cargo_compareInt.
-Print Assumptions C07_tie_cargo_compareInt.
-Definition C07_tie_cargo_string := Verif.Tie.Cargo.tie_cargo_string.
-Print Assumptions C07_tie_cargo_string.
-Definition C07_tie_cargo_compare := Verif.Tie.Cargo.tie_cargo_compare.
-Print Assumptions C07_tie_cargo_compare.
-Definition C07_tie_composer_compareInt := Verif.Tie.Composer.tie_composer_compareInt.
-Print Assumptions C07_tie_composer_compareInt.
-Definition C07_tie_composer_compare := Verif.Tie.Composer.tie_composer_compare.
-Print Assumptions C07_tie_composer_compare.
-Definition C07_tie_composer_string := Verif.Tie.Composer.tie_composer_string.
-Print Assumptions C07_tie_composer_string.
-Definition C07_tie_conan_compareInt := Verif.Tie.Conan.tie_conan_compareInt.
-Print Assumptions C07_tie_conan_compareInt.
-Definition C07_tie_conan_Version_String := Verif.Tie.Conan.tie_conan_Version_String.
-Print Assumptions C07_tie_conan_Version_String.
-Definition C07_tie_conan_Version_Compare := Verif.Tie.Conan.tie_conan_Version_Compare.
-Print Assumptions C07_tie_conan_Version_Compare.
-Definition C07_tie_cran_compareInt := Verif.Tie.Cran.tie_cran_compareInt.
-Print Assumptions C07_tie_cran_compareInt.
-Definition C07_tie_cran_string := Verif.Tie.Cran.tie_cran_string.
-Print Assumptions C07_tie_cran_string.
-Definition C07_tie_debian_string := Verif.Tie.Debian.tie_debian_string.
-Print Assumptions C07_tie_debian_string.
-Definition C07_tie_debian_compare := Verif.Tie.Debian.tie_debian_compare.
-Print Assumptions C07_tie_debian_compare.
-Definition C07_tie_gem_compareInt := Verif.Tie.Gem.tie_gem_compareInt.
-Print Assumptions C07_tie_gem_compareInt.
-Definition C07_tie_gem_Version_String := Verif.Tie.Gem.tie_gem_Version_String.
-Print Assumptions C07_tie_gem_Version_String.
-Definition C07_tie_gem_compareSegments := Verif.Tie.Gem.tie_gem_compareSegments.
-Print Assumptions C07_tie_gem_compareSegments.
-Definition C07_tie_gentoo_compareInt := Verif.Tie.Gentoo.tie_gentoo_compareInt.
-Print Assumptions C07_tie_gentoo_compareInt.
-Definition C07_tie_gentoo_string := Verif.Tie.Gentoo.tie_gentoo_string.
-Print Assumptions C07_tie_gentoo_string.
-Definition C07_tie_github_compareInt := Verif.Tie.Github.tie_github_compareInt.
-Print Assumptions C07_tie_github_compareInt.
-Definition C07_tie_github_getQualifierPrecedence := Verif.Tie.Github.tie_github_getQualifierPrecedence.
-Print Assumptions C07_tie_github_getQualifierPrecedence.
-Definition C07_tie_github_compareQualifiers := Verif.Tie.Github.tie_github_compareQualifiers.
-Print Assumptions C07_tie_github_compareQualifiers.
-Definition C07_tie_github_compare := Verif.Tie.Github.tie_github_compare.
-Print Assumptions C07_tie_github_compare.
-Definition C07_tie_github_string := Verif.Tie.Github.tie_github_string.
-Print Assumptions C07_tie_github_string.
-Definition C07_tie_golang_compareInt := Verif.Tie.Golang.tie_golang_compareInt.
-Print Assumptions C07_tie_golang_compareInt.
-Definition C07_tie_golang_Version_String := Verif.Tie.Golang.tie_golang_Version_String.
-Print Assumptions C07_tie_golang_Version_String.
-Definition C07_tie_golang_Version_Compare := Verif.Tie.Golang.tie_golang_Version_Compare.
-Print Assumptions C07_tie_golang_Version_Compare.
-Definition C07_tie_hex_compareInt := Verif.Tie.Hex.tie_hex_compareInt.
-Print Assumptions C07_tie_hex_compareInt.
-Definition C07_tie_hex_string := Verif.Tie.Hex.tie_hex_string.
-Print Assumptions C07_tie_hex_string.
-Definition C07_tie_hex_compare := Verif.Tie.Hex.tie_hex_compare.
-Print Assumptions C07_tie_hex_compare.
-Definition C07_tie_mattermost_compareInt := Verif.Tie.Mattermost.tie_mattermost_compareInt.
-Print Assumptions C07_tie_mattermost_compareInt.
-Definition C07_tie_mattermost_getQualifierPrecedence := Verif.Tie.Mattermost.tie_mattermost_getQualifierPrecedence.
-Print Assumptions C07_tie_mattermost_getQualifierPrecedence.
-Definition C07_tie_mattermost_compare := Verif.Tie.Mattermost.tie_mattermost_compare.
-Print Assumptions C07_tie_mattermost_compare.
-Definition C07_tie_mattermost_string := Verif.Tie.Mattermost.tie_mattermost_string.
-Print Assumptions C07_tie_mattermost_string.
-Definition C07_tie_npm_compareInt := Verif.Tie.Npm.tie_npm_compareInt.
-Print Assumptions C07_tie_npm_compareInt.
-Definition C07_tie_npm_string := Verif.Tie.Npm.tie_npm_string.
-Print Assumptions C07_tie_npm_string.
-Definition C07_tie_npm_compare := Verif.Tie.Npm.tie_npm_compare.
-Print Assumptions C07_tie_npm_compare.
-Definition C07_tie_nuget_compareInt := Verif.Tie.Nuget.tie_nuget_compareInt.
-Print Assumptions C07_tie_nuget_compareInt.
-Definition C07_tie_nuget_string := Verif.Tie.Nuget.tie_nuget_string.
-Print Assumptions C07_tie_nuget_string.
-Definition C07_tie_nuget_compare := Verif.Tie.Nuget.tie_nuget_compare.
-Print Assumptions C07_tie_nuget_compare.
-Definition C07_tie_pypi_compareInt := Verif.Tie.Pypi.tie_pypi_compareInt.
-Print Assumptions C07_tie_pypi_compareInt.
-Definition C07_tie_pypi_Version_String := Verif.Tie.Pypi.tie_pypi_Version_String.
-Print Assumptions C07_tie_pypi_Version_String.
-Definition C07_tie_pypi_normalizePrereleaseType := Verif.Tie.Pypi.tie_pypi_normalizePrereleaseType.
-Print Assumptions C07_tie_pypi_normalizePrereleaseType.
-Definition C07_tie_pypi_comparePrereleases := Verif.Tie.Pypi.tie_pypi_comparePrereleases.
-Print Assumptions C07_tie_pypi_comparePrereleases.
-Definition C07_tie_pypi_comparePostReleases := Verif.Tie.Pypi.tie_pypi_comparePostReleases.
-Print Assumptions C07_tie_pypi_comparePostReleases.
-Definition C07_tie_pypi_compareDevReleases := Verif.Tie.Pypi.tie_pypi_compareDevReleases.
-Print Assumptions C07_tie_pypi_compareDevReleases.
-Definition C07_tie_pypi_Version_Compare := Verif.Tie.Pypi.tie_pypi_Version_Compare.
-Print Assumptions C07_tie_pypi_Version_Compare.
-Definition C07_tie_rpm_string := Verif.Tie.Rpm.tie_rpm_string.
-Print Assumptions C07_tie_rpm_string.
-Definition C07_tie_rpm_compare := Verif.Tie.Rpm.tie_rpm_compare.
-Print Assumptions C07_tie_rpm_compare.
-Definition C07_tie_semver_compareInt := Verif.Tie.Semver.tie_semver_compareInt.
-Print Assumptions C07_tie_semver_compareInt.
-Definition C07_tie_semver_string := Verif.Tie.Semver.tie_semver_string.
-Print Assumptions C07_tie_semver_string.
-Definition C07_tie_semver_compare := Verif.Tie.Semver.tie_semver_compare.
-Print Assumptions C07_tie_semver_compare.
+Require Verif.Tie.Cli.Spec.
+Require Verif.Tie.Cli.Ties.
+Definition C07_tie_alpine_compareInt := @Verif.Tie.Alpine.tie_alpine_compareInt.
+Definition C07_tie_alpine_Version_String := @Verif.Tie.Alpine.tie_alpine_Version_String.
+Definition C07_tie_alpine_compareLetters := @Verif.Tie.Alpine.tie_alpine_compareLetters.
+Definition C07_tie_alpm_string := @Verif.Tie.Alpm.tie_alpm_string.
+Definition C07_tie_alpm_compare := @Verif.Tie.Alpm.tie_alpm_compare.
+Definition C07_tie_apache_compareInt := @Verif.Tie.Apache.tie_apache_compareInt.
+Definition C07_tie_apache_getQualifierPrecedence := @Verif.Tie.Apache.tie_apache_getQualifierPrecedence.
+Definition C07_tie_apache_compare := @Verif.Tie.Apache.tie_apache_compare.
+Definition C07_tie_apache_string := @Verif.Tie.Apache.tie_apache_string.
+Definition C07_tie_cargo_compareInt := @Verif.Tie.Cargo.tie_cargo_compareInt.
+Definition C07_tie_cargo_string := @Verif.Tie.Cargo.tie_cargo_string.
+Definition C07_tie_cargo_compare := @Verif.Tie.Cargo.tie_cargo_compare.
+Definition C07_tie_composer_compareInt := @Verif.Tie.Composer.tie_composer_compareInt.
+Definition C07_tie_composer_compare := @Verif.Tie.Composer.tie_composer_compare.
+Definition C07_tie_composer_string := @Verif.Tie.Composer.tie_composer_string.
+Definition C07_tie_conan_compareInt := @Verif.Tie.Conan.tie_conan_compareInt.
+Definition C07_tie_conan_Version_String := @Verif.Tie.Conan.tie_conan_Version_String.
+Definition C07_tie_conan_Version_Compare := @Verif.Tie.Conan.tie_conan_Version_Compare.
+Definition C07_tie_cran_compareInt := @Verif.Tie.Cran.tie_cran_compareInt.
+Definition C07_tie_cran_string := @Verif.Tie.Cran.tie_cran_string.
+Definition C07_tie_debian_string := @Verif.Tie.Debian.tie_debian_string.
+Definition C07_tie_debian_compare := @Verif.Tie.Debian.tie_debian_compare.
+Definition C07_tie_gem_compareInt := @Verif.Tie.Gem.tie_gem_compareInt.
+Definition C07_tie_gem_Version_String := @Verif.Tie.Gem.tie_gem_Version_String.
+Definition C07_tie_gem_compareSegments := @Verif.Tie.Gem.tie_gem_compareSegments.
+Definition C07_tie_gentoo_compareInt := @Verif.Tie.Gentoo.tie_gentoo_compareInt.
+Definition C07_tie_gentoo_string := @Verif.Tie.Gentoo.tie_gentoo_string.
+Definition C07_tie_github_compareInt := @Verif.Tie.Github.tie_github_compareInt.
+Definition C07_tie_github_getQualifierPrecedence := @Verif.Tie.Github.tie_github_getQualifierPrecedence.
+Definition C07_tie_github_compareQualifiers := @Verif.Tie.Github.tie_github_compareQualifiers.
+Definition C07_tie_github_compare := @Verif.Tie.Github.tie_github_compare.
+Definition C07_tie_github_string := @Verif.Tie.Github.tie_github_string.
+Definition C07_tie_golang_compareInt := @Verif.Tie.Golang.tie_golang_compareInt.
+Definition C07_tie_golang_Version_String := @Verif.Tie.Golang.tie_golang_Version_String.
+Definition C07_tie_golang_Version_Compare := @Verif.Tie.Golang.tie_golang_Version_Compare.
+Definition C07_tie_hex_compareInt := @Verif.Tie.Hex.tie_hex_compareInt.
+Definition C07_tie_hex_string := @Verif.Tie.Hex.tie_hex_string.
+Definition C07_tie_hex_compare := @Verif.Tie.Hex.tie_hex_compare.
+Definition C07_tie_mattermost_compareInt := @Verif.Tie.Mattermost.tie_mattermost_compareInt.
+Definition C07_tie_mattermost_getQualifierPrecedence := @Verif.Tie.Mattermost.tie_mattermost_getQualifierPrecedence.
+Definition C07_tie_mattermost_compare := @Verif.Tie.Mattermost.tie_mattermost_compare.
+Definition C07_tie_mattermost_string := @Verif.Tie.Mattermost.tie_mattermost_string.
+Definition C07_tie_npm_compareInt := @Verif.Tie.Npm.tie_npm_compareInt.
+Definition C07_tie_npm_string := @Verif.Tie.Npm.tie_npm_string.
+Definition C07_tie_npm_compare := @Verif.Tie.Npm.tie_npm_compare.
+Definition C07_tie_nuget_compareInt := @Verif.Tie.Nuget.tie_nuget_compareInt.
+Definition C07_tie_nuget_string := @Verif.Tie.Nuget.tie_nuget_string.
+Definition C07_tie_nuget_compare := @Verif.Tie.Nuget.tie_nuget_compare.
+Definition C07_tie_pypi_compareInt := @Verif.Tie.Pypi.tie_pypi_compareInt.
+Definition C07_tie_pypi_Version_String := @Verif.Tie.Pypi.tie_pypi_Version_String.
+Definition C07_tie_pypi_normalizePrereleaseType := @Verif.Tie.Pypi.tie_pypi_normalizePrereleaseType.
+Definition C07_tie_pypi_comparePrereleases := @Verif.Tie.Pypi.tie_pypi_comparePrereleases.
+Definition C07_tie_pypi_comparePostReleases := @Verif.Tie.Pypi.tie_pypi_comparePostReleases.
+Definition C07_tie_pypi_compareDevReleases := @Verif.Tie.Pypi.tie_pypi_compareDevReleases.
+Definition C07_tie_pypi_Version_Compare := @Verif.Tie.Pypi.tie_pypi_Version_Compare.
+Definition C07_tie_rpm_string := @Verif.Tie.Rpm.tie_rpm_string.
+Definition C07_tie_rpm_compare := @Verif.Tie.Rpm.tie_rpm_compare.
+Definition C07_tie_semver_compareInt := @Verif.Tie.Semver.tie_semver_compareInt.
+Definition C07_tie_semver_string := @Verif.Tie.Semver.tie_semver_string.
+Definition C07_tie_semver_compare := @Verif.Tie.Semver.tie_semver_compare.
+Definition C07_tie_sort_eq := @Verif.Tie.Cli.Spec.sort_eq.
+Definition C07_tie_sort_no_panic := @Verif.Tie.Cli.Spec.sort_no_panic.
+Definition C07_tie_sort_tie_none := @Verif.Tie.Cli.Ties.sort_tie_none.
+Definition C07_tie_sort_tie_upto := @Verif.Tie.Cli.Ties.sort_tie_upto.
+Definition C07_tie_sort_tie := @Verif.Tie.Cli.Ties.sort_tie.
+Definition C07_tie_sort_generated_tie := @Verif.Tie.Cli.Ties.sort_generated_tie.
+Definition C07_ties_all := (C07_tie_alpine_Version_String, (C07_tie_alpine_compareInt, (C07_tie_alpine_compareLetters, (C07_tie_alpm_compare, (C07_tie_alpm_string, (C07_tie_apache_compare, (C07_tie_apache_compareInt, (C07_tie_apache_getQualifierPrecedence, (C07_tie_apache_string, (C07_tie_cargo_compare, (C07_tie_cargo_compareInt, (C07_tie_cargo_string, (C07_tie_composer_compare, (C07_tie_composer_compareInt, (C07_tie_composer_string, (C07_tie_conan_Version_Compare, (C07_tie_conan_Version_String, (C07_tie_conan_compareInt, (C07_tie_cran_compareInt, (C07_tie_cran_string, (C07_tie_debian_compare, (C07_tie_debian_string, (C07_tie_gem_Version_String, (C07_tie_gem_compareInt, (C07_tie_gem_compareSegments, (C07_tie_gentoo_compareInt, (C07_tie_gentoo_string, (C07_tie_github_compare, (C07_tie_github_compareInt, (C07_tie_github_compareQualifiers, (C07_tie_github_getQualifierPrecedence, (C07_tie_github_string, (C07_tie_golang_Version_Compare, (C07_tie_golang_Version_String, (C07_tie_golang_compareInt, (C07_tie_hex_compare, (C07_tie_hex_compareInt, (C07_tie_hex_string, (C07_tie_mattermost_compare, (C07_tie_mattermost_compareInt, (C07_tie_mattermost_getQualifierPrecedence, (C07_tie_mattermost_string, (C07_tie_npm_compare, (C07_tie_npm_compareInt, (C07_tie_npm_string, (C07_tie_nuget_compare, (C07_tie_nuget_compareInt, (C07_tie_nuget_string, (C07_tie_pypi_Version_Compare, (C07_tie_pypi_Version_String, (C07_tie_pypi_compareDevReleases, (C07_tie_pypi_compareInt, (C07_tie_pypi_comparePostReleases, (C07_tie_pypi_comparePrereleases, (C07_tie_pypi_normalizePrereleaseType, (C07_tie_rpm_compare, (C07_tie_rpm_string, (C07_tie_semver_compare, (C07_tie_semver_compareInt, (C07_tie_semver_string, (C07_tie_sort_eq, (C07_tie_sort_generated_tie, (C07_tie_sort_no_panic, (C07_tie_sort_tie, (C07_tie_sort_tie_none, C07_tie_sort_tie_upto))))))))))))))))))))))))))))))))))))))))))))))))))))))))))))))))).
+Print Assumptions C07_ties_all.
 (* ====== ties to the source: END ====== *)
